@@ -5,7 +5,7 @@ from ..index import AnalysisError, dotted
 from ..astutil import text, short, endswith, calls_in, walk_no_nested, names_loaded, stmt_defs
 from .. import events as E
 from .. import types as T
-from ._h_E import Flow, arg, argn, nargs, return_cases, own_helper, mutation_nodes_deep, args_by_params
+from ._h_E import decide, anchors_of, analysed_separately, cname, calls_E, nodes_calling_E, Flow, arg, argn, nargs, return_cases, own_helper, mutation_nodes_deep, args_by_params
 
 EXPLANATION = (
   "Decides the structural pairing behind undo: every path through every DocActions method that "
@@ -40,13 +40,13 @@ STATE_READS = ("raw_get", "fetch_table", "get_cell_value", "safe_get")
 
 
 def check(run, repo, tier):
-  w = World(repo)
-  r1_r2_r3(run, w)
-  r4_replay_order(run, w)
-  r5_rollback_trim(run, w)
-  r6_modify_reorder(run, w)
-  r7_delta_direction(run, w)
-  r8_ownership(run, w)
+  # each rule is decided on the code as written; when it is not satisfied there, it is asked again
+  # on the view with private helpers inlined (see _h_E.decide), so statements moved into a new
+  # helper keep their place
+  import os
+  _HERE = os.path.dirname(os.path.abspath(__file__))
+  decide(run, repo, [r1_r2_r3, r4_replay_order, r5_rollback_trim, r6_modify_reorder, r7_delta_direction, r8_ownership],
+         anchors_of(os.path.join(_HERE, "c01.py"), os.path.join(_HERE, "_h_E.py"), os.path.join(_HERE, "../events.py")))
 
 
 # ------------------------------------------------------------------------------------------
@@ -64,7 +64,7 @@ def undo_records(w, fn, cfg=None):
   that records its own argument on every path."""
   out = []
   dnames = set(w.doc_action_names())
-  for (n, c, nm) in fn.calls(cfg):
+  for (n, c, nm) in calls_E(fn, cfg):
     if E.is_undo_record(c, nm, fn):
       args = list(c.args)
       if endswith(nm, "undo.insert") and len(args) == 2:
@@ -77,7 +77,7 @@ def undo_records(w, fn, cfg=None):
     hfn = w.fn_of(h)
     hflow = _flow_of(hfn)
     hps = h.params()[1:]
-    for (hn, hc, hnm) in hfn.calls():
+    for (hn, hc, hnm) in calls_E(hfn):
       if E.is_undo_record(hc, hnm, hfn) and len(hc.args) == 1 and \
           hfn.cfg.dominated_by(hfn.cfg.exit.id, {hn.id}):
         t = hflow.itext(hc.args[0], hn.id, stop=hps)
@@ -97,7 +97,7 @@ def undo_ctor_of(fn, call, names, expr=False):
     args = [expr]
   else:
     args = list(call.args)
-    if endswith(fn.name(call), "undo.insert") and len(args) == 2:
+    if endswith(cname(fn, call), "undo.insert") and len(args) == 2:
       args = args[1:]
   if len(args) != 1:
     return None
@@ -158,7 +158,7 @@ def r1_r2_r3(run, w):
     recs = undo_records(w, fn)
     undo_calls = [(n, c) for (n, c, x) in recs]
     rec_expr = {id(c): x for (n, c, x) in recs}
-    deleg = [(n, c, nm) for (n, c, nm) in fn.calls()
+    deleg = [(n, c, nm) for (n, c, nm) in calls_E(fn)
              if nm and nm.startswith("self.") and nm.split(".")[-1] in dnames and nm.count(".") == 1]
     if an in DELEGATES:
       ok = any(nm == "self." + DELEGATES[an] for (_, _, nm) in deleg) and not muts
@@ -191,7 +191,7 @@ def r1_r2_r3(run, w):
         run.ob(R2, fi.qualname, short(ctor), "%s is not an inverse kind of %s" % (kind, an),
                False, fi=fi, node=ctor)
     # formula-column restore goes through summary.add_changes (RemoveColumn)
-    sum_nodes = fn.nodes_calling(E.is_summary_add_changes)
+    sum_nodes = nodes_calling_E(fn, E.is_summary_add_changes)
     # R1: no entry->mutation->normal exit path avoiding the primary inverse
     if not muts:
       raise AnalysisError("%s: no state mutation recognised (mechanism moved?)" % fi.qualname)
@@ -320,7 +320,7 @@ def r3_prestate(run, R3, fn, undo_calls, muts):
   fi = fn.fi
   du = DefUse(fn)
   mut_recv = {}
-  for (n, c, nm) in fn.calls():
+  for (n, c, nm) in calls_E(fn):
     if n.id in muts and (E.is_column_mutation(c, nm, fn) or E.is_engine_mutation(c, nm, fn)):
       rv = c.func.value
       mut_recv.setdefault(n.id, set()).add(rv.id if isinstance(rv, ast.Name) else None)
@@ -387,12 +387,12 @@ def r4_replay_order(run, w):
           len(base.args) == 1:
         base, bn = flow.resolve(base.args[0], bn)
       return rev, base
-    gateways = [(n, c) for (n, c, nm) in fn.calls()
+    gateways = [(n, c) for (n, c, nm) in calls_E(fn)
                 if E.is_strict_gateway_call(c, nm, fn) and nargs(c) == 1]
     n_ok = 0
     for (n, c) in gateways:
       a = flow.resolve(argn(w, fn, c, 0), n.id) if argn(w, fn, c, 0) is not None else (None, n.id)
-      if not (isinstance(a[0], ast.Call) and endswith(dotted(a[0].func), "action_from_repr") and
+      if not (isinstance(a[0], ast.Call) and endswith(cname(fn, a[0]), "action_from_repr") and
               nargs(a[0]) == 1 and a[0].args):
         continue
       src = flow.loop_source(a[0].args[0], a[1])
@@ -441,6 +441,7 @@ def r5_rollback_trim(run, w):
   def cp_field(e, nid):
     """Which list's checkpointed length expression `e` denotes: a local unpacked from the
     checkpoint parameter, or <checkpoint>[i]."""
+    e, nid = flow.resolve(e, nid)
     if isinstance(e, ast.Name):
       b = flow.binder(e.id, nid)
       if b is not None and b.kind == "stmt" and isinstance(b.stmt, ast.Assign) and \
@@ -488,7 +489,7 @@ def r5_rollback_trim(run, w):
               and x.slice.upper is None and x.slice.step is None
           run.ob(R5, ut.qualname, short(x), "undo slice starts at the checkpointed undo length",
                  len_ok, fi=ut.fi, node=x)
-  apply_nodes = ut.nodes_calling(lambda c, nm, f: endswith(nm, "ApplyUndoActions"))
+  apply_nodes = nodes_calling_E(ut, lambda c, nm, f: endswith(nm, "ApplyUndoActions"))
   ok = bool(slice_nodes) and bool(apply_nodes) and not (cfg.reach_after(del_nodes) & slice_nodes) \
       and all(cfg.dominated_by(a, slice_nodes) for a in apply_nodes) \
       and all(cfg.dominated_by(d, apply_nodes) for d in del_nodes)
@@ -501,13 +502,13 @@ def r6_modify_reorder(run, w):
                 "the ModifyColumn assertion", floor=1)
   fn = w.fn("useractions.UserActions.doModifyColumn")
   cfg = fn.xcfg
-  pops = [(n, c) for (n, c, nm) in fn.calls(cfg) if endswith(nm, "out_actions.undo.pop")]
+  pops = [(n, c) for (n, c, nm) in calls_E(fn, cfg) if endswith(nm, "out_actions.undo.pop")]
   xflow = Flow(fn, cfg)
   if not pops:
     raise AnalysisError("doModifyColumn: undo.pop() not found (mechanism moved?)")
   for (n, c) in pops:
     # re-appends of the very value popped here (through whatever local holds it)
-    apps = {m.id for (m, c2, nm) in fn.calls(cfg) if endswith(nm, "out_actions.undo.append")
+    apps = {m.id for (m, c2, nm) in calls_E(fn, cfg) if endswith(nm, "out_actions.undo.append")
             and len(c2.args) == 1 and
             xflow.denotes(c2.args[0], m.id, lambda v, k: v is c)}
     # every path after the pop -- normal or exceptional -- re-appends the same value
@@ -524,11 +525,13 @@ def r6_modify_reorder(run, w):
     asserts = set()
     for a in cfg.nodes:
       if a.kind == "assert":
-        t = a.stmt.test
+        t = xflow.resolve(a.stmt.test, a.id)[0]
         if isinstance(t, ast.Call) and dotted(t.func) == "isinstance" and len(t.args) == 2 and \
-            endswith(dotted(t.args[1]), "ModifyColumn") and isinstance(t.args[0], ast.Subscript) \
-            and endswith(fn.aliases.dotted(t.args[0].value) or "", "out_actions.undo"):
-          asserts.add(a.id)
+            endswith(dotted(t.args[1]), "ModifyColumn"):
+          last = xflow.resolve(t.args[0], a.id)[0]
+          if isinstance(last, ast.Subscript) and text(last.slice) == "-1" and \
+              endswith(cname(fn, xflow.inline(last.value, a.id)) or "", "out_actions.undo"):
+            asserts.add(a.id)
     run.ob(R6, fn.qualname, "assert isinstance(undo[-1], ModifyColumn)",
            "the pop is dominated by the check that the popped action is the ModifyColumn inverse",
            bool(asserts) and cfg.dominated_by(n.id, asserts), fi=fn.fi, node=n.stmt)
@@ -572,7 +575,7 @@ def r7_delta_direction(run, w):
     return out
   n_st = n_un = n_front = 0
   cfg = fn.cfg
-  for (n, c, nm) in fn.calls():
+  for (n, c, nm) in calls_E(fn):
     if nm in (p_stored + ".append", p_undo + ".append", p_undo + ".insert",
               p_stored + ".insert", p_stored + ".extend", p_undo + ".extend"):
       args = list(c.args)
@@ -605,7 +608,8 @@ def r7_delta_direction(run, w):
           extra = [b_.get(p_) for p_ in ua_params[ipos + 1:]]
           names_ok = names_ok and len(extra) == 2 and all(
             e is not None and flow.denotes(e, l.nid, lambda v, k: isinstance(v, ast.Call) and
-                                           endswith(dotted(v.func), "original_name"))
+                                           isinstance(v.func, ast.Attribute) and
+                                           v.func.attr == "original_name")
             for e in extra)
       if front:
         n_front += 1
@@ -622,7 +626,7 @@ def r7_delta_direction(run, w):
          "one stored emitter, one undo emitter, one front restore", n_st >= 1 and n_un >= 1 and
          n_front >= 1, fi=fn.fi, nontrivial=False)
   # original_name() reads happen before table_id/col_id are rewritten by root_name()
-  orig_nodes = fn.nodes_calling(lambda c, nm, f: endswith(nm, "original_name"))
+  orig_nodes = nodes_calling_E(fn, lambda c, nm, f: endswith(nm, "original_name"))
   rewrite = set()
   for n in cfg.nodes:
     if n.kind == "stmt" and isinstance(n.stmt, ast.Assign) and \
@@ -676,14 +680,17 @@ def r8_ownership(run, w):
                 floor=10)
   dnames = set(w.doc_action_names())
   for fi in w.repo.all_functions():
+    if not analysed_separately(w, fi):
+      continue
     fn = w.fn_of(fi)
+    fi = fn.fi
     in_column_class = fi.cls is not None and (w.typer.is_column(fi.cls.qualname) or
                                               fi.module.name in ("column", "lookup"))
     is_docaction = fi.cls is not None and fi.cls.qualname == "docactions.DocActions" and \
         fi.name in dnames
     calls = None
     try:
-      calls = fn.calls()
+      calls = calls_E(fn)
     except AnalysisError:
       raise
     def docaction(f):
